@@ -75,12 +75,22 @@ def gen_documents(ctx, n):
     return docs
 
 
+# textDocument/formatting: the options are the client's business - any tab size, tabs or blanks, the optional members
+FORMAT_OPTIONS = [{"tabSize": 4, "insertSpaces": True}, {"tabSize": 0, "insertSpaces": True}, {"tabSize": 1, "insertSpaces": False},
+                  {"tabSize": 255, "insertSpaces": True}, {"tabSize": 256, "insertSpaces": True}, {"tabSize": 257, "insertSpaces": False},
+                  {"tabSize": 1000, "insertSpaces": True}, {"tabSize": 65535, "insertSpaces": False}, {"tabSize": 4096, "insertSpaces": True},
+                  {"tabSize": 100000, "insertSpaces": False}, {"tabSize": 2147483647, "insertSpaces": False},
+                  {"tabSize": 4294967295, "insertSpaces": False},
+                  {"tabSize": 8, "insertSpaces": True, "trimTrailingWhitespace": True, "insertFinalNewline": True, "trimFinalNewlines": True},
+                  {"tabSize": 2, "insertSpaces": False, "someClientSpecificKey": "x", "another": 3, "flag": False}]
+
+
 def params_for(method, line, ch, uri=URI):
     td = {"textDocument": {"uri": uri}}
     if method in ("foldingRange", "semanticTokens/full"):
         return td
     if method == "formatting":
-        return dict(td, options={"tabSize": 4, "insertSpaces": True})
+        return dict(td, options=FORMAT_OPTIONS[line % len(FORMAT_OPTIONS)])     # `line` selects the options here
     p = dict(td, position={"line": line, "character": ch})
     if method == "references":
         p["context"] = {"includeDeclaration": True}
@@ -160,7 +170,13 @@ def session(exe, text, edits, seed, per_method=3, timeout=20.0, raw_edits=(), se
         def fire():
             ids = []
             for m in METHODS:
-                for (l, c) in positions(rng, cur, per_method)[: (1 if m in ("foldingRange", "formatting", "semanticTokens/full") else 99)]:
+                # wide indentation only for documents of modest nesting: depth x tabSize blanks per line is the formatter's job,
+                # a response of hundreds of megabytes is not what this check is about
+                modest = cur.count("{") <= 12 and len(cur) <= 4000
+                fopts = [k for k, o in enumerate(FORMAT_OPTIONS) if modest or not o["insertSpaces"] or o["tabSize"] <= 8]
+                where = ([(rng.choice(fopts), 0) for _ in range(3)] if m == "formatting"
+                         else positions(rng, cur, per_method)[: (1 if m in ("foldingRange", "semanticTokens/full") else 99)])
+                for (l, c) in where:
                     rid = s.request_async("textDocument/" + m, params_for(m, l, c), rid=next_rid())
                     ids.append((rid, m, l, c))
             return ids
